@@ -51,6 +51,11 @@ impl Parser {
         }
     }
 
+    /// To be called once all the `#[logos(...)]` attributes have been read
+    pub fn reject_recursive_types(&mut self) {
+        self.types.reject_recursive_types(&mut self.errors);
+    }
+
     pub fn generics(&mut self) -> Option<TokenStream> {
         self.types.generics(&mut self.errors)
     }
